@@ -452,7 +452,7 @@ func (d *lockDomain) collectAccesses(fn *ssa.Function) []lsAccess {
 				return
 			}
 			n := calleeName(cc)
-			if n == "syscall/js.Value.Call" {
+			if n == "(syscall/js.Value).Call" {
 				if len(cc.Args) >= 2 {
 					if s, ok := constString(cc.Args[1]); ok && (s == "drawCell" || s == "clearScreen" || s == "show" || s == "resize") {
 						out = append(out, lsAccess{"js-grid", true, ins})
